@@ -68,6 +68,27 @@ def _specs():
     ]
 
 
+LONG_LIVED = ("stc", "substituter", "simplifier", "qfo", "theoryo", "fvo", "sizeo", "ao", "typeso")
+HOOKS = ("_push_with_children_to_stack", "_compute_node_result", "_get_children", "_get_key")
+
+
+def stacks_empty(chk, env, label, replay=None, extra=()):
+    """The theorem (C15_walk_err / C15_failure_transparent): after a walk that raised at ANY node
+    the stack is empty, and a one-shot table is empty.  Asserted on every long-lived walker of the
+    environment (and on `extra` = [(name, walker)]) right after each failing call."""
+    bad = 0
+    for nm, w in [(n, getattr(env, n)) for n in LONG_LIVED] + list(extra):
+        if len(w.stack) != 0:
+            bad += 1
+            chk.violation(dict(replay or {}, kind="history", what="env.%s.stack holds %d entries after a call that raised (%s); the model theorem says the stack "
+                               "is empty after a walk that raised at any node" % (nm, len(w.stack), label)), key="stack-not-empty:%s" % nm)
+        if w.invalidate_memoization and len(w.memoization) != 0:
+            bad += 1
+            chk.violation(dict(replay or {}, kind="history", what="the one-shot table of env.%s holds %d entries after a call that raised (%s)"
+                               % (nm, len(w.memoization), label)), key="oneshot-memo-not-empty:%s" % nm)
+    return bad == 0
+
+
 def outcome(thunk):
     try:
         return ("ok", thunk())
@@ -83,6 +104,9 @@ def canon_outcome(o):
 
 def key_of(kind, f):
     return (0, f) if kind == "size" else f
+
+
+_CURRENT_CHK = [None]
 
 
 class History(object):
@@ -109,6 +133,9 @@ class History(object):
         o = outcome(lambda: self.call(self.env, self.w, f, extra))
         self.inj.target = None
         code = (0, 0)
+        if o[0] == "raise" and _CURRENT_CHK[0] is not None and not getattr(self, "_stack_reported", False):
+            if not stacks_empty(_CURRENT_CHK[0], self.env, "%s: %s" % (self.name, label or "failing call")):
+                self._stack_reported = True
         if o[0] == "raise":
             code = (2, 0) if o[1] == "KeyError" else (1, self.ids.get(self.tap.log[-1], 0) if self.tap.log else 0)
         ids = self.ids
@@ -576,6 +603,222 @@ def run_parser(chk, rnd, stats):
                               key="parser:failed-script-keeps-declarations" if redeclared else "parser:trace-after-failure:%s" % label)
 
 
+# ---------------------------------------------------------------------------------------------
+# The PHASE in which the exception surfaces: faults inside every overridable hook of the loop
+# (expansion, key, children, computation), at the n-th call, on every long-lived walker and on
+# a reused SmtDagPrinter; natural faults under binders that are not the root (C15-E class)
+# ---------------------------------------------------------------------------------------------
+
+def hook_overrides():
+    """Which DagWalker subclasses of the tree override which hooks (for the evidence)."""
+    import pysmt.rewritings, pysmt.smtlib.printers, pysmt.simplifier, pysmt.substituter, pysmt.oracles, pysmt.type_checker     # noqa
+    import pysmt.walkers.dag as d
+
+    def subs(c):
+        for x in c.__subclasses__():
+            yield x
+            for y in subs(x):
+                yield y
+    names = HOOKS + ("_process_stack", "iter_walk", "walk")
+    return dict((c.__name__, [h for h in names if h in c.__dict__]) for c in set(subs(d.DagWalker)) if any(h in c.__dict__ for h in names))
+
+
+def _hook_walkers():
+    """name -> (get(env) walker, call(env, walker, f))"""
+    import pysmt.environment as pe
+    from pysmt.smtlib.printers import SmtDagPrinter
+
+    def mk_printer(env):
+        if not hasattr(env, "_c15_printer"):
+            pe.push_env(env)
+            try:
+                env._c15_printer = SmtDagPrinter(io.StringIO())
+            finally:
+                pe.pop_env()
+        return env._c15_printer
+
+    def print_call(env, w, f):
+        buf = io.StringIO()
+        w.stream, w.write = buf, buf.write
+        pe.push_env(env)
+        try:
+            w.printer(f)
+        finally:
+            pe.pop_env()
+        return buf.getvalue()
+    W = {"stc": (lambda e: e.stc, lambda e, w, f: e.formula_manager.Not(e.formula_manager.And(f, e.formula_manager.Symbol("hk_fresh")))),
+         "substituter": (lambda e: e.substituter, lambda e, w, f: w.substitute(f, {e.formula_manager.Symbol("p2"): e.formula_manager.Symbol("p1")})),
+         "simplifier": (lambda e: e.simplifier, lambda e, w, f: w.simplify(f)),
+         "qfo": (lambda e: e.qfo, lambda e, w, f: w.is_qf(f)), "theoryo": (lambda e: e.theoryo, lambda e, w, f: str(w.get_theory(f))),
+         "fvo": (lambda e: e.fvo, lambda e, w, f: w.get_free_variables(f)), "sizeo": (lambda e: e.sizeo, lambda e, w, f: w.get_size(f, 0)),
+         "ao": (lambda e: e.ao, lambda e, w, f: w.get_atoms(f)), "typeso": (lambda e: e.typeso, lambda e, w, f: [str(t) for t in w.get_types(f)]),
+         "reused SmtDagPrinter": (mk_printer, print_call)}
+    return W
+
+
+CONTEXTS = ("and", "or", "not", "ite", "implies")
+
+
+def _in_context(m, f, kinds, p, c):
+    for k in kinds:
+        f = {"and": lambda: m.And(p, f), "or": lambda: m.Or(f, p), "not": lambda: m.Not(f), "ite": lambda: m.Ite(c, f, p),
+             "implies": lambda: m.Implies(p, f)}[k]()
+    return f
+
+
+def _hook_formulas(env, rows, kinds, forall=False):
+    """F: a quantifier that is NOT the root (under 1..3 Boolean operators); G1: unrelated, no
+    quantifier; G2: another quantifier."""
+    nodes = walkgen.build(env, rows)
+    m = env.formula_manager
+    g = walkgen.last_of_sort(env, nodes)
+    p0, p1, p2 = nodes[0], nodes[1], nodes[2]
+    i0, i1, i2 = nodes[3], nodes[4], nodes[5]
+    Q = m.ForAll if forall else m.Exists
+    F = _in_context(m, Q([i0], m.And(g, m.LT(i0, i1))), kinds, p0, p1)
+    G1 = m.And(p2, m.Or(m.LT(i1, i2), m.Not(p1)))
+    G2 = m.Or(m.ForAll([i2], m.LE(i2, m.Plus(i1, i2))), p2)
+    return F, G1, G2
+
+
+def run_hook_faults(chk, rnd, rows, stats):
+    from pysmt.environment import Environment
+    W = _hook_walkers()
+    for wname in sorted(W):
+        get, call = W[wname]
+        for hook in HOOKS:
+            for nth in (1, 2, 4, 7):
+                kinds = [rnd.choice(CONTEXTS) for _ in range(rnd.choice([1, 2, 3]))]
+                forall = rnd.random() < 0.5
+                env, twin = Environment(), Environment()
+                F, G1, G2 = _hook_formulas(env, rows, kinds, forall)
+                tF, tG1, tG2 = _hook_formulas(twin, rows, kinds, forall)
+                w, tw = get(env), get(twin)
+                orig = getattr(w, hook)
+                cnt = [0]
+
+                def faulty(*a, **kw):
+                    cnt[0] += 1
+                    if cnt[0] == nth:
+                        raise InjectedFault()
+                    return orig(*a, **kw)
+                setattr(w, hook, faulty)
+                first = outcome(lambda: call(env, w, F))
+                delattr(w, hook)
+                stats["failing_calls"] += 1
+                if first != ("raise", "InjectedFault"):
+                    stats["fault_not_reached"] += 1
+                    continue
+                replay = {"walker": wname, "hook": hook, "nth_call": nth, "context": kinds, "recipe": rows,
+                          "history": ["%s on F = %s(quantifier) with %s raising at its call number %d" % (wname, "/".join(kinds), hook, nth),
+                                      "%s on G1 (unrelated, no quantifier)" % wname, "%s on G2 (another quantifier)" % wname, "%s on F again" % wname],
+                          "repro": "harness.c15.replay_hook(%r, %r, %d, %r, %r, %r)" % (wname, hook, nth, kinds, forall, rows)}
+                extra = [(wname, w)] if wname.startswith("reused") else []
+                ok = stacks_empty(chk, env, "%s raising in %s (call %d)" % (wname, hook, nth), replay, extra)
+                diffs = []
+                for lbl, f, tf in (("G1", G1, tG1), ("G2", G2, tG2), ("F again", F, tF), ("G1 again", G1, tG1)):
+                    a = canon_outcome(outcome(lambda: call(env, w, f)))
+                    b = canon_outcome(outcome(lambda: call(twin, tw, tf)))
+                    stats["probe_calls"] += 1
+                    if a != b:
+                        diffs.append({"call": lbl, "after_failure": list(a), "fresh_twin": list(b)})
+                chk.count(("hook-fault", wname, hook, nth, tuple(kinds)))
+                if diffs and ok:
+                    stats["histories_with_trace"] += 1
+                    chk.violation(dict(replay, kind="history", what="after %s raised inside %s, later calls on the same walker differ from the twin" % (wname, hook),
+                                       differences=diffs[:4]), key="hook-fault:%s:%s" % (wname, hook))
+
+
+def replay_hook(wname, hook, nth, kinds, forall, rows):
+    warnings.simplefilter("ignore")
+    from pysmt.environment import Environment
+    get, call = _hook_walkers()[wname]
+    env = Environment()
+    F, G1, G2 = _hook_formulas(env, rows, kinds, forall)
+    w = get(env)
+    orig, cnt = getattr(w, hook), [0]
+
+    def faulty(*a, **kw):
+        cnt[0] += 1
+        if cnt[0] == nth:
+            raise InjectedFault()
+        return orig(*a, **kw)
+    setattr(w, hook, faulty)
+    print("failing call:", outcome(lambda: call(env, w, F)))
+    delattr(w, hook)
+    print("stack left:", len(w.stack), "entries")
+    r = [canon_outcome(outcome(lambda: call(env, w, f))) for f in (G1, G2, F)]
+    for x in r:
+        print("later call:", x[0], str(x[1])[:120])
+    return 1 if len(w.stack) or any(x[0] == "raise" for x in r) else 0
+
+
+def run_binder_faults(chk, rnd, rows, stats):
+    """Natural faults below a binder that is not the root: an ill-typed replacement (substituter)
+    and a node type the printer does not know (reused SmtDagPrinter), at depth 1..3 under
+    And / Or / Not / Ite / Implies; the first later call does not contain that quantifier."""
+    from pysmt.environment import Environment
+    from pysmt.typing import BOOL
+    W = _hook_walkers()
+    NT = custom_node_type()
+    for depth in (1, 2, 3):
+        for forall in (False, True):
+            for wname in ("substituter", "reused SmtDagPrinter"):
+                for order in (0, 1):
+                    kinds = [rnd.choice(CONTEXTS) for _ in range(depth)]
+                    res = []
+                    for with_failure in (True, False):
+                        env = Environment()
+                        env.add_dynamic_walker_function(NT, type(env.stc), lambda self, formula, args, **kw: BOOL)
+                        nodes = walkgen.build(env, rows)
+                        m = env.formula_manager
+                        p0, p1, p2, i0, i1, i2 = nodes[0], nodes[1], nodes[2], nodes[3], nodes[4], nodes[5]
+                        Q = m.ForAll if forall else m.Exists
+                        good_atom = m.LT(m.Plus(i1, i0), i2)
+                        if wname == "substituter":
+                            bad_atom = m.Equals(i2, i0)
+                            call_bad = lambda w, f: w.substitute(f, {i1: m.Int(1), i2: m.Real(2)})
+                            call_ok = lambda w, f: w.substitute(f, {i1: i2})
+                        else:
+                            bad_atom = m.create_node(node_type=NT, args=(m.LT(i0, i1),))
+                            call_bad = lambda w, f: W[wname][1](env, w, f)
+                            call_ok = call_bad
+                        body = m.And(bad_atom, good_atom) if order == 0 else m.And(good_atom, bad_atom)
+                        F = _in_context(m, Q([i0], body), kinds, p0, p1)
+                        G1 = m.And(p2, m.Or(m.LT(m.Plus(i1, i0), i2), m.Not(p1)))
+                        G2 = m.Or(m.ForAll([i0], m.LE(i0, m.Plus(i1, i0))), p2)
+                        w = W[wname][0](env)
+                        first = outcome(lambda: call_bad(w, F)) if with_failure else None
+                        ok = True
+                        if with_failure:
+                            stats["failing_calls"] += 1
+                            extra = [(wname, w)] if wname.startswith("reused") else []
+                            ok = stacks_empty(chk, env, "%s failing below a %s under %s" % (wname, "forall" if forall else "exists", "/".join(kinds)),
+                                              {"history": ["%s(%s)" % (wname, walkgen.canon(F)[:300])], "repro": "harness.c15.replay_binder_fault()"}, extra)
+                        later = [canon_outcome(outcome(lambda: call_ok(w, f))) for f in (G1, G2, G1)]
+                        stats["probe_calls"] += 3
+                        res.append((first, later, ok, walkgen.canon(F)))
+                    (first, later, ok, fk), (_, tlater, _, _) = res
+                    chk.count(("binder-fault", wname, depth, forall, order, tuple(kinds)))
+                    if first[0] != "raise":
+                        stats["fault_not_reached"] += 1
+                        continue
+                    if later != tlater and ok:
+                        stats["histories_with_trace"] += 1
+                        chk.violation({"kind": "history", "what": "after %s failed below a quantifier that is not the root (depth %d under %s), later calls differ from the twin"
+                                       % (wname, depth, "/".join(kinds)), "history": ["%s(%s) raises %s" % (wname, fk[:300], first[1]), "G1 (unrelated)", "G2", "G1"],
+                                       "after_failure": [list(x) for x in later], "fresh_twin": [list(x) for x in tlater],
+                                       "repro": "harness.c15.replay_binder_fault()"}, key="binder-fault:%s" % wname)
+
+
+def replay_binder_fault():
+    warnings.simplefilter("ignore")
+    c = _Chk()
+    rnd = random.Random(0)
+    run_binder_faults(c, rnd, walkgen.gen_recipe(rnd, 8), _stats())
+    return 1 if c.v else 0
+
+
 def run_corpus(chk, stats):
     """The minimal histories of the repaired defects; each must behave like the twin."""
     from pysmt.environment import Environment
@@ -645,7 +888,13 @@ def run(tier):
     ok = chk.prove()
     stats = {"failing_calls": 0, "probe_calls": 0, "fault_not_reached": 0, "histories_with_trace": 0}
     specs = _specs()
+    _CURRENT_CHK[0] = chk
     run_corpus(chk, stats)
+    for k in range(2 if tier == "quick" else 12):
+        rows = walkgen.gen_recipe(rnd, rnd.choice([6, 9]))
+        run_hook_faults(chk, rnd, rows, stats)
+        run_binder_faults(chk, rnd, rows, stats)
+    chk.cov["hook_overrides_in_tree"] = hook_overrides()
     rows_out, meta = [], []
     nform = 10 if tier == "quick" else 80
     for k in range(nform):
@@ -696,6 +945,8 @@ def run(tier):
     chk.cov["corpus"] = CORPUS
     chk.cov["faults"] = ["callback raising at every key of the traversal (injected)", "unsupported operator (custom node type)",
                          "ill-typed substitution",
+                         "a fault at the n-th call (1,2,4,7) of each loop hook (_push_with_children_to_stack, _compute_node_result, _get_children, _get_key) of the 9 long-lived walkers and a reused SmtDagPrinter, on a quantifier that is not the root; natural faults below such a binder at depth 1..3 (ill-typed replacement, node unknown to the printer)",
+                         "after EVERY failing call: stack == [] (and one-shot table empty) on every long-lived walker of the environment",
                          "fail -> register the handler (env.add_dynamic_walker_function) -> retry, on each of the 8 long-lived walkers and on the type checker",
                          "rejected constructions (31 entries: pysmt type errors, typing rules raising AttributeError/AssertionError, create_node with a node type unknown to the type checker), each attempted three times",
                          "parser: " + ", ".join(l for l, _ in BAD_SCRIPTS),
